@@ -167,6 +167,7 @@ type Explorer struct {
 
 	panicWhere string
 	noSample   bool
+	sliceN     int
 	// per-path results, merged into the session at path end
 	queries    int64
 	solverTime time.Duration
@@ -1055,4 +1056,44 @@ func (c *mchan) close() {
 		panic(rtErr{"close of closed channel"})
 	}
 	c.closed = true
+}
+
+
+// ---- abstract byte slices with symbolic length (no element access) ----
+
+// symSlice is a []byte whose length is a symbolic integer: only len, cap,
+// re-slicing (bounds-checked, out-of-range as its own panicking path) and
+// passing around are defined.  off is the offset from the start of the base.
+type symSlice struct {
+	ex            *Explorer
+	base          int
+	off, ln, capv value // int or symv(Int)
+}
+
+func (s symSlice) reslice(lo, hi, max value) value {
+	ex := s.ex
+	if lo == nil {
+		lo = 0
+	}
+	if hi == nil {
+		hi = s.ln
+	}
+	capEnd := s.capv
+	if max != nil {
+		capEnd = max
+	}
+	check := func(c value) bool {
+		if b, ok := c.(bool); ok {
+			return b
+		}
+		return ex.decide(c.(symv))
+	}
+	// 0 <= lo <= hi <= cap
+	if check(binop(token.LSS, nil, lo, 0)) || check(binop(token.GTR, nil, lo, hi)) || check(binop(token.GTR, nil, hi, capEnd)) {
+		panic(rtErr{"slice bounds out of range"})
+	}
+	return symSlice{ex: ex, base: s.base,
+		off:  binop(token.ADD, nil, s.off, lo),
+		ln:   binop(token.SUB, nil, hi, lo),
+		capv: binop(token.SUB, nil, capEnd, lo)}
 }
